@@ -2,7 +2,7 @@
    consequences read off the trace semantics alone, and a concrete run. *)
 From Coq Require Import List NArith ZArith Bool Lia.
 From PM Require Import Base.Bytes Base.Outcome Base.Dec Gen.GenConsts Model.ScriptAst Model.Enqueue Model.Script
-  Spec.ScriptSem Proofs.ScriptProofs Proofs.ScriptRefine Proofs.ScriptSim.
+  Spec.ScriptSem Proofs.ScriptProofs Proofs.ScriptRefine Proofs.ScriptSim Proofs.ScriptRewind.
 Import ListNotations.
 Local Open Scope Z_scope.
 
@@ -70,6 +70,54 @@ Section Closed.
       exists e. repeat split; assumption.
     - intros d1 ins2 Hp1.
       exact (rewind_refines rmatch compress sc _ _ _ _ _ _ _ _ _ _ _ d1 ins2 HI Hp1 Hb Hlv Hr).
+  Qed.
+
+  Lemma rewind_fields a : a_client (rewind_action a) = a_client a /\ a_hascb (rewind_action a) = a_hascb a /\ a_tele (rewind_action a) = a_tele a.
+  Proof. unfold rewind_action. destruct (rev (a_exec a)); auto. Qed.
+
+  (* C08_fresh_start, literally: on every schedule the rewound action behaves like the freshly created one - same
+     status, same device, same argument store, same observations, same raw events *)
+  Theorem rewound_same script ps com client hascb tele hasdiag args d0 store0 ins1 d a store tr raw :
+    bwf script -> (block_levels script <= 8)%nat -> (is_ranged_com com = true -> ps <> None) ->
+    (args <> None -> hasdiag = true) ->
+    run rmatch compress sc ins1 d0 (create_action script com ps client hascb tele hasdiag args) store0 [] []
+      = Ok (Running, d, a, store, tr, raw) ->
+    forall d1 ins2 st d' a2 store' tr2 raw2, sd_plugs d1 = sd_plugs d0 ->
+    run rmatch compress sc ins2 d1 (rewind_action a) store [] [] = Ok (st, d', a2, store', tr2, raw2) ->
+    exists a2',
+      run rmatch compress sc ins2 d1
+          (create_action script (a_com a) ps (a_client a) (a_hascb a) (a_tele a) (a_hasdiag a) (a_args a)) store [] []
+        = Ok (st, d', a2', store', tr2, raw2).
+  Proof.
+    intros Hb Hlv Hr Hd Erun d1 ins2 st d' a2 store' tr2 raw2 Hp1 Hrun.
+    set (a0 := create_action script com ps client hascb tele hasdiag args) in *.
+    destruct (create_start_ok script com ps client hascb tele hasdiag args d0 Hb Hlv Hr Hd) as (Hf0 & Hst0).
+    destruct (run_refines rmatch compress sc (is_ranged_com com) (sd_plugs d0) script ps args hasdiag d0 a0 store0 ins1 Hf0 Hst0)
+      as (st0 & d0' & a0' & store0' & tr0 & raw0 & E & _ & _ & HI).
+    rewrite Erun in E. injection E as <- <- <- <- <- <-. specialize (HI eq_refl).
+    destruct (rewind_fresh rmatch compress sc _ _ _ _ _ _ _ _ _ _ _ HI) as (Hf & Ec & Ee & Ea & Eh).
+    pose proof HI as ((Hdg & _ & (Hrg & _ & Herr & _ & Ha & Hh) & _) & _).
+    set (b := create_action script (a_com a) ps (a_client a) (a_hascb a) (a_tele a) (a_hasdiag a) (a_args a)).
+    assert (Hst : start_ok (is_ranged_com com) (sd_plugs d0) script ps args hasdiag d1 (rewind_action a)).
+    { split; [exact Hb|]. split; [exact Hlv|]. split; [exact Hr|]. split; [exact Hdg|]. split; [exact Hp1|].
+      split; [rewrite Ec; exact Hrg|]. split; [rewrite Ee; exact Herr|]. split; [rewrite Ea; exact Ha|rewrite Eh; exact Hh]. }
+    assert (Hstb : start_ok (is_ranged_com com) (sd_plugs d0) script ps args hasdiag d1 b).
+    { split; [exact Hb|]. split; [exact Hlv|]. split; [exact Hr|]. split; [exact Hdg|]. split; [exact Hp1|].
+      split; [exact Hrg|]. split; [reflexivity|]. split; [exact Ha|exact Hh]. }
+    assert (Hfb : fresh_like script ps b).
+    { exists (new_ctx script ps). repeat split; auto. intros l K. discriminate K. }
+    pose proof (fresh_inv rmatch compress sc _ _ _ _ _ _ d1 (rewind_action a) store Hf Hst) as HIr.
+    pose proof (fresh_inv rmatch compress sc _ _ _ _ _ _ d1 b store Hfb Hstb) as HIb.
+    assert (Haeq : aeq (rewind_action a) b).
+    { destruct Hf as (e & Ex & Eb & Ep & Epos & (Epr & Eit) & _).
+      destruct (rewind_fields a) as (R1 & R2 & R3).
+      split; [unfold afld; cbn [b create_action a_com a_client a_hascb a_tele a_hasdiag a_err a_args]; rewrite Ec, Ee, Ea, Eh, R1, R2, R3; repeat split; exact Herr|]. split.
+      - rewrite Ex. cbn [a_exec b create_action]. constructor; [|constructor].
+        unfold ceq, new_ctx. cbn [c_plugs c_block c_pos c_plugitr c_processing]. repeat split; assumption.
+      - right. rewrite Ex. constructor; [left; exact Epr|constructor]. }
+    destruct (run_rel rmatch compress sc _ _ _ _ _ _ _ _ ins2 d1 (rewind_action a) b store [] [] [] HIr HIb Haeq st d' a2 store' tr2 raw2 Hrun)
+      as (a2' & o & -> & _ & Hrb).
+    exists a2'. exact Hrb.
   Qed.
 End Closed.
 
